@@ -5,7 +5,7 @@ that writes links or the free list, each slot that loses its link is pushed on t
 once (or re-linked / queued), nothing still linked is pushed, nothing hangs below a freed slot;
 R16.2 new_node grows the arena only after free.pop() returned None and overwrites all four fields of
 a recycled slot; R16.3 clear truncates arena and free list together and re-creates the root, and
-only clear shrinks them / only the tabulated functions push and pop the free list; R16.4 nothing
+every function whose MIR touches links or the free list is covered by an analysed path; R16.4 nothing
 reachable from _retain allocates.  The numeric bound is a corollary and is not computed.
 """
 from .. import absint
@@ -61,7 +61,7 @@ def declare(rep):
     rep.rule("R16.1", "slot partition preserved on every path: unlinked ⇒ freed once (or re-linked/queued); freed ⇒ not linked; "
                       "nothing orphaned below a freed slot; fresh slots end linked exactly once")
     rep.rule("R16.2", "new_node: arena grows only after free.pop() = None; a recycled slot has prefix, value, left, right overwritten")
-    rep.rule("R16.3", "clear: arena.clear + free.clear + fresh root together; only the tabulated functions clear / push / pop")
+    rep.rule("R16.3", "clear: arena.clear + free.clear + fresh root always together")
     rep.rule("R16.4", "no allocation is reachable from _retain (it reads links of slots it has just freed)")
 
 
@@ -126,15 +126,6 @@ def run_config(ctx, rep, cfg, F):
                         rep.bad("R16.3", where, "root not empty", "%s: fresh root is %s" % (where, st), config=cfg)
                     else:
                         rep.ok("R16.3", where, "arena, free list and root reset together", sample={"order": g.order, "root": st})
-            # attribution of free-list operations
-            for p in paths:
-                for e in p.events:
-                    if e.kind == "vec_push" and e["vec"].endswith(".free") and e["fn"] not in PUSHERS:
-                        rep.bad("R16.3", e["fn"], "free.push", "%s pushes on the free list (allowed: %s)" % (e["fn"], sorted(PUSHERS)), config=cfg)
-                    if e.kind == "vec_pop" and e["vec"].endswith(".free") and e["fn"] not in POPPERS:
-                        rep.bad("R16.3", e["fn"], "free.pop", "%s pops the free list (allowed: %s)" % (e["fn"], sorted(POPPERS)), config=cfg)
-                    if e.kind in ("arena_clear", "vec_clear") and e["fn"] not in CLEARERS:
-                        rep.bad("R16.3", e["fn"], e.kind, "%s clears the arena / free list (allowed: %s)" % (e["fn"], sorted(CLEARERS)), config=cfg)
         rep.floor("free-list pushes replayed (%s)" % cfg, n_freed, 20)
         # coverage: every function whose MIR writes links / free must have been entered
         for short in writers:
@@ -145,12 +136,6 @@ def run_config(ctx, rep, cfg, F):
                 rep.bad("R16.1", short, "uninterpreted", "MIR shows a write of Node::left/right or PrefixMap::free in %s but no "
                         "analysed path goes through it" % short, kind="unrecognised", config=cfg)
         rep.floor("functions writing links or the free list (%s)" % cfg, len(writers), 6)
-        # MIR-level who-may: Vec::clear / push / pop on PrefixMap::free
-        for name, ws in C.mir_writers(F, C.PMAP, "free").items():
-            if name not in PUSHERS | POPPERS | CLEARERS:
-                rep.bad("R16.3", name, "touches free", "%s mutably uses PrefixMap::free (allowed: %s)" % (name, sorted(PUSHERS | POPPERS | CLEARERS)), config=cfg)
-            else:
-                rep.ok("R16.3", name, "tabulated user of the free list")
         # R16.4: call-graph reachability from _retain
         reach = reachable(F, "PrefixMap::_retain")
         allocs = {"PrefixMap::new_node", "PrefixMap::insert", "PrefixMap::clear"}
